@@ -113,9 +113,22 @@ Fixpoint run (p : pid) (f : fs) (w : wst) (l : list astep) : fs * wst :=
 (* a crash after k steps: the prefix is executed, nothing else (no destructor runs: the temp
    file stays), the kernel drops the dead process's lock *)
 Definition writer : pid := 1.
+(* the same from an arbitrary file system (e.g. one that earlier crashes of the same pid left) *)
+Definition crash_from (f : fs) (new : bytes) (sz : N) (k : nat) : fs :=
+  let '(f', w) := run writer f (wst0 new sz) (firstn k protocol) in
+  reap f' (if wlocked w then wh w else None) writer.
 Definition crash (prior : option bytes) (new : bytes) (sz : N) (k : nat) : fs :=
-  let '(f, w) := run writer (fs_init prior) (wst0 new sz) (firstn k protocol) in
-  reap f (if wlocked w then wh w else None) writer.
+  crash_from (fs_init prior) new sz k.
+
+(* a history of crashed saves, all of a process with the same (recycled) pid: what each one
+   leaves -- the temp file included -- is what the next one starts from *)
+Fixpoint after_crashes (f : fs) (h : list (bytes * N * nat)) : fs :=
+  match h with
+  | [] => f
+  | (c, sz, k) :: tl => after_crashes (crash_from f c sz k) tl
+  end.
+(* a save that runs to completion *)
+Definition save_complete (f : fs) (new : bytes) (sz : N) : fs := fst (run writer f (wst0 new sz) protocol).
 
 Definition target (f : fs) : option bytes := read_name f Target.
 Definition temp_of (f : fs) : option bytes := read_name f (Temp writer).
